@@ -794,24 +794,93 @@ func c01FuncOfValueD(v ssa.Value, depth int) (fn *ssa.Function, recv ssa.Value) 
 // value, function) to syncutil.Go.
 func c01GraphCopyFns(p *Prog) map[*ssa.Function]bool {
 	out := map[*ssa.Function]bool{}
-	ts := map[*ssa.Function]bool{}
 	for _, t := range c01Traversals(p) {
-		ts[t.Entry] = true
-		ts[t.Body] = true
-	}
-	for _, f := range p.FuncsOfPkg("") {
-		if ts[f] {
-			continue
-		}
-		for _, g := range CallsTo(f, nGo) {
-			if len(g.Common().Args) < 3 {
+		inTraversal := c01ReachableFns(t.Entry, 3)
+		for _, f := range p.FuncsOfPkg("") {
+			if inTraversal[f] || c01IsDispatcher(f, t.Entry) {
 				continue
 			}
-			if fn, _ := c01FuncOfValue(g.Common().Args[2]); fn != nil && ts[fn] {
+			if len(c01DispatchCalls(f, t.Entry)) > 0 {
 				out[f] = true
 			}
 		}
 	}
+	return out
+}
+
+// c01Dispatch is one hand-over of items to syncutil.Go(ctx, limiter, entry, items...) — directly, or through a
+// dispatcher helper whose body is that call with its own parameters.
+type c01Dispatch struct {
+	Call    ssa.CallInstruction // the call in the function under consideration
+	Items   ssa.Value           // the items, in that function's context
+	Limiter ssa.Value           // the limiter handed to syncutil.Go (in the context of the function holding the Go call)
+	GoCall  ssa.CallInstruction // the syncutil.Go call itself
+}
+
+// c01IsDispatcher: f does nothing but forward its parameters to syncutil.Go(…, entry, items...).
+func c01IsDispatcher(f, entry *ssa.Function) bool {
+	if f == nil || len(f.Blocks) == 0 {
+		return false
+	}
+	gos := CallsTo(f, nGo)
+	if len(gos) != 1 || len(gos[0].Common().Args) < 3 {
+		return false
+	}
+	if fn, _ := c01FuncOfValue(gos[0].Common().Args[2]); fn != entry {
+		return false
+	}
+	prm, isParam := variadicArg(gos[0]).(*ssa.Parameter)
+	return isParam && prm.Parent() == f
+}
+
+func c01DispatchCalls(f, entry *ssa.Function) []c01Dispatch {
+	var out []c01Dispatch
+	for _, call := range Calls(f, func(string) bool { return true }) {
+		if _, isDefer := call.(*ssa.Defer); isDefer {
+			continue
+		}
+		if CalleeName(call) == nGo && len(call.Common().Args) >= 3 {
+			if fn, _ := c01FuncOfValue(call.Common().Args[2]); fn == entry && !c01IsDispatcher(f, entry) {
+				out = append(out, c01Dispatch{Call: call, Items: variadicArg(call), Limiter: call.Common().Args[1], GoCall: call})
+			}
+			continue
+		}
+		d := StaticCallee(call)
+		if d == nil || !c01IsDispatcher(d, entry) {
+			continue
+		}
+		g := CallsTo(d, nGo)[0]
+		prm := variadicArg(g).(*ssa.Parameter)
+		for k, q := range d.Params {
+			if q == prm && k < len(call.Common().Args) {
+				out = append(out, c01Dispatch{Call: call, Items: call.Common().Args[k], Limiter: g.Common().Args[1], GoCall: g})
+			}
+		}
+	}
+	return out
+}
+
+// c01ReachableFns: f and the module functions / closures it calls (static callees and function values), to depth.
+func c01ReachableFns(f *ssa.Function, depth int) map[*ssa.Function]bool {
+	out := map[*ssa.Function]bool{}
+	var rec func(g *ssa.Function, d int)
+	rec = func(g *ssa.Function, d int) {
+		if g == nil || out[g] || len(g.Blocks) == 0 || !inModule(g) {
+			return
+		}
+		out[g] = true
+		if d == 0 {
+			return
+		}
+		for _, call := range Calls(g, func(string) bool { return true }) {
+			h := StaticCallee(call)
+			if h == nil && !call.Common().IsInvoke() {
+				h, _ = c01FuncOfValue(call.Common().Value)
+			}
+			rec(h, d-1)
+		}
+	}
+	rec(f, depth)
 	return out
 }
 
@@ -1070,16 +1139,6 @@ func c01ClaimsParam(f *ssa.Function) bool {
 func c01Traversals(p *Prog) []c01Traversal {
 	var out []c01Traversal
 	seen := map[*ssa.Function]bool{}
-	dispatches := func(f, entry *ssa.Function) bool {
-		for _, g := range CallsTo(f, nGo) {
-			if len(g.Common().Args) >= 3 {
-				if fn, _ := c01FuncOfValue(g.Common().Args[2]); fn == entry {
-					return true
-				}
-			}
-		}
-		return false
-	}
 	for _, f := range p.FuncsOfPkg("") {
 		for _, g := range CallsTo(f, nGo) {
 			if len(g.Common().Args) < 3 {
@@ -1089,21 +1148,20 @@ func c01Traversals(p *Prog) []c01Traversal {
 			if entry == nil || seen[entry] || len(entry.Blocks) == 0 || !c01ClaimsParam(entry) {
 				continue
 			}
+			// the body: the function reachable from the entry (the entry itself first) that dispatches the entry again
 			var body *ssa.Function
-			if dispatches(entry, entry) {
+			if len(c01DispatchCalls(entry, entry)) > 0 {
 				body = entry
 			} else {
-				for _, call := range Calls(entry, func(string) bool { return true }) {
-					if _, isDefer := call.(*ssa.Defer); isDefer {
-						continue
+				var cands []*ssa.Function
+				for b := range c01ReachableFns(entry, 3) {
+					if b != entry && len(c01DispatchCalls(b, entry)) > 0 {
+						cands = append(cands, b)
 					}
-					b := StaticCallee(call)
-					if b == nil && !call.Common().IsInvoke() {
-						b, _ = c01FuncOfValue(call.Common().Value)
-					}
-					if b != nil && inModule(b) && len(b.Blocks) > 0 && dispatches(b, entry) {
-						body = b
-					}
+				}
+				sort.Slice(cands, func(i, j int) bool { return cands[i].String() < cands[j].String() })
+				if len(cands) > 0 {
+					body = cands[0]
 				}
 			}
 			if body != nil {
